@@ -1,4 +1,5 @@
 import MimeModel.Model.Detect
+import MimeModel.Lemmas.MediaType
 import MimeModel.Model.MediaType
 import MimeModel.Props.C03
 import MimeModel.Gen.Tree
@@ -52,5 +53,62 @@ example : format1 mimeTextHtml kCharset [0x61, 0x3B, 0x62] =
     mimeTextHtml ++ [0x3B, 0x20] ++ kCharset ++ [0x3D, 0x22, 0x61, 0x3B, 0x62, 0x22] := by decide
 example : parse (format1 mimeTextHtml kCharset [0x61, 0x3B, 0x62]) = (mimeTextHtml, [(kCharset, [0x61, 0x3B, 0x62])], .none) := by
   decide +kernel
+
+/-- the three text types are `major/sub` pairs of lower-case tokens -/
+theorem three_typeOK :
+    MT.TypeOK mimeTextPlain [116, 101, 120, 116] [112, 108, 97, 105, 110] ∧
+    MT.TypeOK mimeTextHtml [116, 101, 120, 116] [104, 116, 109, 108] ∧
+    MT.TypeOK mimeTextXml [116, 101, 120, 116] [120, 109, 108] := by
+  refine ⟨⟨?_, ?_, ?_, ?_, ?_⟩, ⟨?_, ?_, ?_, ?_, ?_⟩, ⟨?_, ?_, ?_, ?_, ?_⟩⟩ <;> decide
+
+/-- **the result string always parses**: whatever charset label detection attaches to one of
+    the three text types — a token, something that has to be quoted, or arbitrary bytes that
+    have to be RFC 2231-encoded — `String()` is read back by `mime.ParseMediaType` as that type
+    with the single parameter `charset` = the label, and without error -/
+theorem text_result_parses (mime cs : Bytes) (hm : mime = mimeTextPlain ∨ mime = mimeTextHtml ∨ mime = mimeTextXml)
+    (hb : AllBytes cs) :
+    MT.parse (MT.withCharset mime cs) = (mime, if cs.isEmpty then [] else [(MT.kCharset, cs)], .none) := by
+  unfold MT.withCharset
+  by_cases he : cs.isEmpty = true
+  · simp only [he, ↓reduceIte]
+    rcases hm with rfl | rfl | rfl <;> decide +kernel
+  · have hne : cs ≠ [] := by intro e; subst e; exact he rfl
+    simp only [he, Bool.false_eq_true, ↓reduceIte]
+    obtain ⟨h1, h2, h3⟩ := three_typeOK
+    rcases hm with rfl | rfl | rfl
+    · exact MT.format_parse_roundtrip _ _ _ cs h1 hne hb
+    · exact MT.format_parse_roundtrip _ _ _ cs h2 hne hb
+    · exact MT.format_parse_roundtrip _ _ _ cs h3 hne hb
+
+/-- **C02 (String of every detection result over the built-in tree)**: it parses, its type is the
+    registered type of the reported leaf, and it carries a parameter — `charset` — only when
+    the leaf is one of the three text types -/
+theorem result_string (ext : Ext) (x : Bytes) (lim : Nat) (leaf : Info) (rest : List Info)
+    (hchain : (detect ext Gen.builtin x lim).chain = leaf :: rest)
+    (hb : AllBytes (detect ext Gen.builtin x lim).charset) :
+    ∃ ps, MT.parse (MT.withCharset leaf.mime (detect ext Gen.builtin x lim).charset) = (leaf.mime, ps, .none) ∧
+      (ps = [] ∨ (ps = [(MT.kCharset, (detect ext Gen.builtin x lim).charset)] ∧
+        (leaf.mime = mimeTextPlain ∨ leaf.mime = mimeTextHtml ∨ leaf.mime = mimeTextXml))) := by
+  have hmem : leaf ∈ Gen.builtin.flatten := (chain_rooted ext Gen.builtin x lim).2 leaf (by rw [hchain]; exact List.mem_cons_self ..)
+  have hcs : (detect ext Gen.builtin x lim).charset = charsetFor ext leaf.mime (header x lim) := by
+    simp only [detect] at hchain ⊢
+    rw [hchain]
+  by_cases hne : (detect ext Gen.builtin x lim).charset = []
+  · rw [hne]
+    refine ⟨[], ?_, Or.inl rfl⟩
+    have hs := static_names_valid
+    rw [List.all_eq_true] at hs
+    have := hs leaf hmem
+    simp only [decide_eq_true_eq] at this
+    simpa [MT.withCharset] using this
+  · have h3 := charset_only_on_three ext leaf.mime (header x lim) (by rw [← hcs]; exact hne)
+    refine ⟨[(MT.kCharset, (detect ext Gen.builtin x lim).charset)], ?_, Or.inr ⟨rfl, h3⟩⟩
+    have := text_result_parses leaf.mime _ h3 hb
+    have he : (detect ext Gen.builtin x lim).charset.isEmpty = false := by
+      cases h : (detect ext Gen.builtin x lim).charset with
+      | nil => exact absurd h hne
+      | cons _ _ => rfl
+    rw [he] at this
+    simpa using this
 
 end Mime.C02
